@@ -1,0 +1,87 @@
+// Verification hooks (add-only). Compiled only with RUSTFLAGS="--cfg steux_cc6502_verif".
+// They expose crate-private entry points to the external verification harness; they change
+// no behaviour of the library.
+
+use crate::assemble::{AsmMnemonic, AssemblyCode};
+use crate::compile::CompilerState;
+use crate::cpp;
+use crate::error::Error;
+use crate::generate::{ExprType, GeneratorState};
+
+pub type MappedLine = (String, u32, Option<(String, u32)>);
+
+/// Runs the preprocessor alone on `input`.
+/// Returns the preprocessed bytes, one mapping entry per output line and the string literals.
+pub fn cpp_process(
+    input: &[u8],
+    filename: &str,
+    defines: &[(String, String)],
+    include_directories: &[String],
+) -> Result<(Vec<u8>, Vec<MappedLine>, Vec<String>), Error> {
+    let mut context = cpp::Context::new(filename);
+    context.include_directories = include_directories.to_vec();
+    for (n, v) in defines {
+        context.define(n.clone(), v.clone());
+    }
+    let mut out = Vec::new();
+    let lines = cpp::process(input, &mut out, &mut context, false)?;
+    let lines = lines
+        .iter()
+        .map(|l| {
+            (
+                l.0.to_string(),
+                l.1,
+                l.2.as_ref().map(|i| (i.0.to_string(), i.1)),
+            )
+        })
+        .collect();
+    Ok((out, lines, context.literal_strings.clone()))
+}
+
+/// Operand kinds of `asm()` for `asm_probe`.
+pub enum ProbeOperand {
+    Nothing,
+    Immediate(i32),
+    Tmp(bool),
+    Absolute(String, bool, i32),
+    AbsoluteX(String),
+    AbsoluteY(String),
+    A(bool),
+    Label(String),
+}
+
+/// Pushes one (mnemonic, operand) pair through `GeneratorState::asm` in a scratch function and
+/// returns the code emitted for it (Debug rendering of the AssemblyCode) or the error.
+pub fn asm_probe(
+    compiler_state: &CompilerState,
+    bankswitching_scheme: &str,
+    mnemonic: AsmMnemonic,
+    operand: ProbeOperand,
+    high_byte: bool,
+    protected: bool,
+) -> Result<(bool, String), Error> {
+    let mut sink = Vec::<u8>::new();
+    let mut gs = GeneratorState::new(
+        compiler_state,
+        &mut sink,
+        false,
+        Vec::new(),
+        bankswitching_scheme,
+    );
+    gs.functions_code
+        .insert("probe".to_string(), AssemblyCode::new());
+    gs.current_function = Some("probe".to_string());
+    let op = match operand {
+        ProbeOperand::Nothing => ExprType::Nothing,
+        ProbeOperand::Immediate(v) => ExprType::Immediate(v),
+        ProbeOperand::Tmp(s) => ExprType::Tmp(s),
+        ProbeOperand::Absolute(v, e, o) => ExprType::Absolute(v, e, o),
+        ProbeOperand::AbsoluteX(v) => ExprType::AbsoluteX(v),
+        ProbeOperand::AbsoluteY(v) => ExprType::AbsoluteY(v),
+        ProbeOperand::A(s) => ExprType::A(s),
+        ProbeOperand::Label(l) => ExprType::Label(l),
+    };
+    gs.verif_set_protected(protected);
+    let signed = gs.asm(mnemonic, &op, 1, high_byte)?;
+    Ok((signed, format!("{:?}", gs.functions_code["probe"])))
+}
